@@ -500,6 +500,14 @@ func genFloat64Bits(r *gen.RNG) uint64 {
 			f = 1
 		}
 		return math.Float64bits(f) | (r.U64() & (1 << 63))
+	case 8: // integer-valued floats whose multi-word image has a top word equal to a fast-path divisor: D * 2^(64j) * (1+tiny)
+		d := []float64{10, 100, 1000, 10000, 100000000, 1e19, 1}[r.Intn(7)]
+		f := math.Ldexp(d, 64*r.Range(1, 3))
+		bits := math.Float64bits(f) + uint64(r.Pick(0, 0, 1, r.Intn(1<<20), r.Intn(1<<27)))
+		if r.Chance(1, 8) {
+			bits = math.Float64bits(f) - uint64(r.Range(1, 3))
+		}
+		return bits | (r.U64() & (1 << 63))
 	case 6: // mantissa all ones / few bits
 		e := uint64(r.Range(0, 2046))
 		m := uint64(0x000f_ffff_ffff_ffff)
@@ -649,9 +657,9 @@ func runC09(c *Ctx) {
 	for def := ref.Mode(0); def < ref.NumModes; def++ {
 		c.Parallel("from", def, func(sh *mon.Shard, r *gen.RNG) {
 			j := &floatJudge{ctx: c, sh: sh}
-			n := c.N(30000, 300000)
+			n := c.N(60000, 300000)
 			if def != ref.NearestEven {
-				n /= 4
+				n /= 8
 			}
 			for i := 0; i < n; i++ {
 				if i%4 == 3 {
@@ -659,6 +667,25 @@ func runC09(c *Ctx) {
 				} else {
 					j.judgeFromFloat(genFloat64Bits(r), false, "")
 				}
+			}
+			if def == ref.NearestEven {
+				// high-volume screen with the cheapest observer the statement offers - the round trip
+				// FromFloat64(f).Float64() == f - over floats with fractional bits (carry chains of the
+				// 10^38 scaling depend on the significand alone); a float that fails the screen is handed
+				// to the full oracle, which records the violation
+				m := c.N(400000, 3000000)
+				for i := 0; i < m; i++ {
+					e := uint64(r.Pick(r.Range(960, 1074), r.Range(1, 2046)))
+					bits := e<<52 | r.U64()&0x800f_ffff_ffff_ffff
+					f := math.Float64frombits(bits)
+					var back float64
+					_, pan := try(func() { back = decimal128.FromFloat64(f).Float64() })
+					if pan || back != f {
+						j.judgeFromFloat(bits, false, "")
+						j.sh.Cell("from/screen-failed")
+					}
+				}
+				j.sh.CellN("from/roundtrip-screened", int64(m))
 			}
 		})
 	}
